@@ -3,6 +3,7 @@ package e4
 import (
 	"context"
 	"fmt"
+	"github.com/prometheus/prometheus/config"
 	"sort"
 	"strings"
 	"time"
@@ -221,6 +222,19 @@ func identity(t *discovery.SDTargets) string {
 	}
 	sort.Strings(ls)
 	return strings.Join(ls, ",") + " @ " + t.PromTarget.URL().String()
+}
+
+// identityFor is identity with the URL built from a job section the harness loaded itself.
+func identityFor(t *discovery.SDTargets, jc *config.ScrapeConfig) string {
+	if jc == nil {
+		return identity(t)
+	}
+	var ls []string
+	for _, l := range t.ShardTarget.Labels {
+		ls = append(ls, fmt.Sprintf("%q=%q", l.Name, l.Value))
+	}
+	sort.Strings(ls)
+	return strings.Join(ls, ",") + " @ " + t.ShardTarget.URL(jc).String()
 }
 
 var _ = cfggen.Style{}
